@@ -399,7 +399,7 @@ func c07ClosedChecks(c *Check, P string, r *GCRoles) {
 			ok := true
 			for _, ret := range Returns(Pub) {
 				if re[ret] {
-					for _, v := range Origins(ret.Results[0]) {
+					for _, v := range RetOrigins(ret, 0) {
 						if IsNilConst(v) {
 							ok = false
 						}
@@ -450,6 +450,31 @@ func c07ClosedChecks(c *Check, P string, r *GCRoles) {
 				c.Report(!s && !t, P+".O5", "CLOSED-LOCK-NOT-UNDER-SUBSCRIBER-LOCKS", fn, cl.Pos(), "closed check / closed lock", "the closed lock is never asked for while the subscribers lock or a topic mutex is held (Close keeps it while waiting for the teardowns, which need those locks)", "held: "+held.String())
 			}
 		}
+		// and the other way round: whoever holds the closed lock must not wait for the subscribers lock or a topic mutex —
+		// a blocked Publish keeps those until Close raises the closing signal, and Close needs the closed lock for that
+		nAcq := 0
+		for _, fn := range r.Funcs {
+			for _, cl := range rawCallsIn(fn) {
+				op, isOp := r.LA.opOf(cl)
+				if !isOp || (op.mode != 'W' && op.mode != 'R') || (op.id != r.idSubs && op.id != r.idTopic) {
+					continue
+				}
+				if _, isDefer := cl.(*ssa.Defer); isDefer {
+					continue
+				}
+				nAcq++
+				held := LockSet{}
+				for k, m := range r.LA.Held(cl) {
+					held[k] = m
+				}
+				for k, m := range r.LA.MayHoldAt(cl) {
+					held[k] = m
+				}
+				_, has := held[r.idClosedLock]
+				c.Report(!has, P+".O5", "SUBSCRIBER-LOCKS-NOT-UNDER-CLOSED-LOCK", fn, cl.Pos(), "acquisition of the subscribers lock / a topic mutex", "the subscribers lock and the topic mutexes are never waited for while the closed lock is held (a blocked Publish keeps them until Close raises the closing signal, for which Close needs the closed lock)", "held: "+held.String())
+			}
+		}
+		c.Floor(P+".O5", "acquisitions of the subscribers lock / topic mutex", nAcq, 2)
 		// the reader takes the lock
 		for _, ld := range FieldLoads(r.IsClosed, r.Closed) {
 			c.Report(r.LA.Held(ld)[r.idClosedLock] == 'W', P+".O5", "CLOSED-CHECK-LOCKED", r.IsClosed, ld.Pos(), "closed flag read", "the closed check reads the flag under the closed lock")
@@ -460,7 +485,7 @@ func c07ClosedChecks(c *Check, P string, r *GCRoles) {
 				if RetNil(ret, 0) {
 					c.Report(len(fF) > 0 && GuardedBy(r.IsClosed, ret, fF), P+".O5", "CLOSED-CHECK-RESULT", r.IsClosed, ret.Pos(), "return nil", "the closed check answers nil only when the flag is not set")
 				} else {
-					os := Origins(ret.Results[0])
+					os := RetOrigins(ret, 0)
 					c.Report(len(fT) > 0 && GuardedBy(r.IsClosed, ret, fT) && len(os) > 0 && allOf(os, func(v ssa.Value) bool { return ProvablyNonNil(v, func(ssa.Value) bool { return false }) }), P+".O5", "CLOSED-CHECK-RESULT", r.IsClosed, ret.Pos(), "return error", "the closed check answers with a non-nil error exactly when the flag is set")
 				}
 			}
@@ -479,7 +504,7 @@ func c07ClosedChecks(c *Check, P string, r *GCRoles) {
 			ok := true
 			for _, ret := range Returns(S) {
 				if re[ret] && !KnownNonNilAt(S, ret, ret.Results[1]) {
-					for _, v := range Origins(ret.Results[1]) {
+					for _, v := range RetOrigins(ret, 1) {
 						if IsNilConst(v) {
 							ok = false
 						}
@@ -743,7 +768,7 @@ func c07Decorator(c *Check, P string) {
 	var T *types.Named
 	for _, f := range WithAnon(ctor) {
 		for _, r := range Returns(f) {
-			for _, o := range Origins(r.Results[0]) {
+			for _, o := range RetOrigins(r, 0) {
 				if mi, ok := o.(*ssa.MakeInterface); ok && mi.Type().String() == msgPkg+".Subscriber" {
 					T = NamedOf(mi.X.Type())
 				}
